@@ -1,54 +1,55 @@
 import N2k.Lemmas.HandlersOps
 import N2k.Spec.HandlersRx
-/-! C14 end to end: every history of client operations and received frames causes exactly the expected calls. -/
+/-! C14 end to end: every history of client operations, arrivals and polls causes exactly the expected calls. -/
 namespace N2k.Handlers
+
+theorem dispatchAll_ok {w : World} (hi : Inv w) : ∀ (ms : List (BusId × Rx.Msg)),
+    ∃ cs, dispatchAll w ms = some cs ∧ Agree CallOk cs (ms.map fun bm => ⟨bm.1, bm.2, view w⟩)
+  | [] => ⟨[], rfl, trivial⟩
+  | bm :: rest => by
+    obtain ⟨l, hd, hn, hm, ho⟩ := dispatch_ok hi bm.1 bm.2.pgn
+    obtain ⟨cs, hcs, ha⟩ := dispatchAll_ok hi rest
+    refine ⟨⟨bm.1, bm.2, if w.cb bm.1 then 1 else 0, l⟩ :: cs, by simp [dispatchAll, hd, hcs], ?_⟩
+    exact ⟨⟨rfl, rfl, rfl, hn, hm, ho⟩, ha⟩
 
 theorem nodeRun_ok (c : BusId → Rx.Cfg) : ∀ (evs : List Ev) (n : Node), Inv n.w →
     ∃ n' calls, nodeRun c n evs = some (n', calls) ∧ Inv n'.w ∧
-      CallsAgree calls (expected c (view n.w) n.rx evs)
+      CallsAgree calls (expected c (view n.w) n.r evs)
   | [], n, hi => ⟨n, [], rfl, hi, trivial⟩
   | e :: evs, n, hi => by
     have recv : ∀ e : Ev, (∀ o, e ≠ .op o) →
-        (nodeStep c n e = match (rxTrack c n.rx e).2 with
-          | none => some (⟨n.w, (rxTrack c n.rx e).1⟩, none)
-          | some bm => match dispatch n.w bm.1 bm.2.pgn with
-            | none => none
-            | some r => some (⟨n.w, (rxTrack c n.rx e).1⟩, some ⟨bm.1, bm.2, r.1, r.2⟩)) ∧
-        expected c (view n.w) n.rx (e :: evs) =
-          ((rxTrack c n.rx e).2.map fun bm => ⟨bm.1, bm.2, view n.w⟩) :: expected c (view n.w) (rxTrack c n.rx e).1 evs := by
+        (nodeStep c n e = match dispatchAll n.w (rxTrack c n.r e).2 with
+          | none => none
+          | some cs => some (⟨n.w, (rxTrack c n.r e).1⟩, cs)) ∧
+        expected c (view n.w) n.r (e :: evs) =
+          ((rxTrack c n.r e).2.map fun bm => ⟨bm.1, bm.2, view n.w⟩) :: expected c (view n.w) (rxTrack c n.r e).1 evs := by
       intro e he
       cases e with
       | op o => exact absurd rfl (he o)
-      | frame b now f => exact ⟨rfl, rfl⟩
-      | tpDone b m => exact ⟨rfl, rfl⟩
+      | setMode b k v => exact ⟨rfl, rfl⟩
+      | arrive b f tp => exact ⟨rfl, rfl⟩
+      | poll b now => exact ⟨rfl, rfl⟩
     have fin : (∀ o, e ≠ .op o) → ∃ n' calls, nodeRun c n (e :: evs) = some (n', calls) ∧ Inv n'.w ∧
-        CallsAgree calls (expected c (view n.w) n.rx (e :: evs)) := by
+        CallsAgree calls (expected c (view n.w) n.r (e :: evs)) := by
       intro he
       obtain ⟨hs, hx⟩ := recv e he
       rw [hx]
-      cases hbm : (rxTrack c n.rx e).2 with
-      | none =>
-        simp only [hbm] at hs
-        obtain ⟨n', calls, hr, hi', hc⟩ := nodeRun_ok c evs ⟨n.w, (rxTrack c n.rx e).1⟩ hi
-        refine ⟨n', none :: calls, ?_, hi', ?_⟩
-        · simp [nodeRun, hs, hr]
-        · exact hc
-      | some bm =>
-        obtain ⟨l, hd, hn, hm, ho⟩ := dispatch_ok hi bm.1 bm.2.pgn
-        simp only [hbm, hd] at hs
-        obtain ⟨n', calls, hr, hi', hc⟩ := nodeRun_ok c evs ⟨n.w, (rxTrack c n.rx e).1⟩ hi
-        refine ⟨n', some ⟨bm.1, bm.2, if n.w.cb bm.1 then 1 else 0, l⟩ :: calls, ?_, hi', ?_⟩
-        · simp [nodeRun, hs, hr]
-        · exact ⟨⟨rfl, rfl, rfl, hn, hm, ho⟩, hc⟩
+      obtain ⟨cs, hcs, ha⟩ := dispatchAll_ok hi (rxTrack c n.r e).2
+      simp only [hcs] at hs
+      obtain ⟨n', calls, hr, hi', hc⟩ := nodeRun_ok c evs ⟨n.w, (rxTrack c n.r e).1⟩ hi
+      refine ⟨n', cs :: calls, ?_, hi', ?_⟩
+      · simp [nodeRun, hs, hr]
+      · exact ⟨ha, hc⟩
     cases e with
     | op o =>
       obtain ⟨w', hst, hi', hv⟩ := step_ok hi o
-      obtain ⟨n', calls, hr, hi'', hc⟩ := nodeRun_ok c evs ⟨w', n.rx⟩ hi'
-      refine ⟨n', none :: calls, ?_, hi'', ?_⟩
+      obtain ⟨n', calls, hr, hi'', hc⟩ := nodeRun_ok c evs ⟨w', n.r⟩ hi'
+      refine ⟨n', [] :: calls, ?_, hi'', ?_⟩
       · simp [nodeRun, nodeStep, hst, hr]
-      · show CallsAgree calls (expected c (specStep (view n.w) o) n.rx evs)
-        rw [← hv]; exact hc
-    | frame b now f => exact fin (fun o h => by cases h)
-    | tpDone b m => exact fin (fun o h => by cases h)
+      · show Agree CallOk [] [] ∧ CallsAgree calls (expected c (specStep (view n.w) o) n.r evs)
+        rw [← hv]; exact ⟨trivial, hc⟩
+    | setMode b k v => exact fin (fun o h => by cases h)
+    | arrive b f tp => exact fin (fun o h => by cases h)
+    | poll b now => exact fin (fun o h => by cases h)
 
 end N2k.Handlers
